@@ -130,7 +130,7 @@ func runCycle(c *cycleCase) (line, impl string, fails []*failure, labels []strin
 			impl = fmt.Sprintf("(off-grid %v %v)", terr, ferr)
 			break
 		}
-		impl = v.Str(v.L(v.Atom("ok"), tsx, f1sx, writtenTags(res.W0), nameTableObs(f, res.W0)))
+		impl = v.Str(v.L(v.Atom("ok"), tsx, f1sx, writtenTags(res.W0), nameTableObs(f, res.W0), os2Derived(ft)))
 	}
 	return line, impl, fails, labels, nil
 }
@@ -158,7 +158,31 @@ func writeContext(f *sfnt.Font) v.Sx {
 			extra = append(extra, v.U64(uint64(t)))
 		}
 	}
-	return v.L(v.Atom("wctx"), v.L(v.Atom("days"), day(f.ModificationTime), day(f.CreationTime)), extra)
+	// the code range of the best cmap subtable and the font bounding box
+	rng := v.Sx(none)
+	var lly, ury int
+	func() {
+		defer func() { recover() }()
+		if best, _ := f.CMapTable.GetBest(); best != nil {
+			lo, hi := best.CodeRange()
+			rng = v.L(v.Atom("range"), v.I64(int64(lo)), v.I64(int64(hi)))
+		}
+		bb := f.FontBBox()
+		lly, ury = int(bb.LLy), int(bb.URy)
+	}()
+	return v.L(v.Atom("wctx"), v.L(v.Atom("days"), day(f.ModificationTime), day(f.CreationTime)), extra,
+		rng, v.L(v.Atom("bbox"), v.Int(lly), v.Int(ury)))
+}
+
+// os2Derived prints the values of the written OS/2 table that Write derives
+// from the glyph data and the cmap.
+func os2Derived(ft *fileTables) v.Sx {
+	if ft.os2 == nil {
+		return none
+	}
+	o := ft.os2
+	return v.L(v.Atom("os2x"), v.Int(int(o.AvgGlyphWidth)), v.Int(int(o.FirstCharIndex)), v.Int(int(o.LastCharIndex)),
+		v.Int(int(o.WinAscent)), v.Int(int(o.WinDescent)))
 }
 
 // writtenTags reads the table directory of a written file (an independent
